@@ -476,6 +476,13 @@ def r4_inverse(program, rep):
                 rhs = _poly(ffl, c[2])
                 ok_test = (c[1] == "LtE" and rhs == ffl._pow2(NB - 1)) or \
                     (c[1] == "Lt" and rhs == ffl._pow2(NB - 1) - 1)
+    if not detail:
+        # no subtraction from the word under a test was found: the two's
+        # complement adjustment is made in a form (a helper, an arithmetic
+        # identity) these rules do not read
+        raise AnalysisError("fix_to_float.kbits: the sign adjustment "
+                            "(value - 2 ** n_bits under a sign test) was "
+                            "not found in this form")
     rep.check(ok_adj and ok_test, "C16-R4", qual(inner), "a word is "
               "negative iff its sign bit (bit n_bits-1) is set; then 2 ** "
               "n_bits is subtracted (two's complement)",
